@@ -18,6 +18,7 @@ TRUSTED = ("the protobuf runtime's wire codec (Parse(Serialize(m)) = m, range ch
 
 def run(ctx):
     g = gtirb_from_repo.load()
+    ctx.scope = {"deny": ("writer-field:", "writer:header", "writer:vertices", "reader")}
     cov = irgen.Cov(ctx)
     n = 80 if ctx.quick else 2500
     batch = protocheck.Batch()
